@@ -1022,6 +1022,9 @@ class JSExec(GoExec, SpecMixin, CallsMixin):
             if name == '$imul':
                 self.assumed.add('Math.imul(a, b) is the int32 congruent to a*b modulo 2^32 (ECMA-262); the $imul fallback is verified separately')
                 return self.math(st, 'imul', args, line)
+            if name == '$indexPtr' and len(args) == 3:
+                for a in args[:2]: self.ev(st, a)
+                return JSObj({}, ctor='Ptr', ref=fresh('obj'))        # a pointer to an element: opaque here
             if name == '$panic':
                 raise PanicEx('panic')           # panic(v): unwinds (its argument is not evaluated here)
             if name == '$throwRuntimeError':
